@@ -285,7 +285,7 @@ func genC04(seed uint64, idx int) *Plan {
 		if ms.needRun {
 			p.Compress = true
 		}
-		if ms.noComp {
+		if ms.noComp && !(ms.kind == "inner-no-tls13" && idx%2 == 1) {
 			p.Compress = false
 		}
 		if ms.needPad && p.Pad == 0 {
